@@ -7,6 +7,7 @@ extern crate std;
 use std::vec::Vec;
 
 use tinyvec::ArrayVec;
+use zeroize::{Zeroize, ZeroizeOnDrop};
 
 use crate::{
     constants::{
@@ -18,7 +19,7 @@ use crate::{
     hasher::HashChain,
     hss::{
         definitions::HssPrivateKey,
-        reference_impl_private_key::{ReferenceImplPrivateKey, Seed},
+        reference_impl_private_key::{ReferenceImplPrivateKey, Seed, SeedAndLmsTreeIdentifier},
     },
     lm_ots::{
         self,
@@ -191,4 +192,73 @@ pub fn build_constants() -> Vec<(&'static str, Vec<usize>)> {
             std::vec![REF_IMPL_MAX_PRIVATE_KEY_SIZE]
         ),
     ]
+}
+
+fn assert_zeroize_on_drop<T: ZeroizeOnDrop>() {}
+
+/// For every secret-bearing type: an instance filled with non-zero secret bytes is zeroized;
+/// reports (type name, secret bytes before, secret bytes after).
+/// Instantiating this function also requires each of the types to implement `ZeroizeOnDrop`.
+pub fn zeroize_probes<H: HashChain>() -> Vec<(&'static str, Vec<u8>, Vec<u8>)> {
+    assert_zeroize_on_drop::<Seed<H>>();
+    assert_zeroize_on_drop::<SeedAndLmsTreeIdentifier<H>>();
+    assert_zeroize_on_drop::<ReferenceImplPrivateKey<H>>();
+    assert_zeroize_on_drop::<LmsPrivateKey<H>>();
+    assert_zeroize_on_drop::<lm_ots::definitions::LmotsPrivateKey<H>>();
+
+    let mut out = Vec::new();
+    let n = H::OUTPUT_SIZE as usize;
+    let filled = std::vec![0xa5u8; n];
+
+    let mut seed = seed_from::<H>(&filled);
+    let before = seed.as_slice().to_vec();
+    seed.zeroize();
+    out.push(("Seed", before, seed.as_slice().to_vec()));
+
+    let mut both = SeedAndLmsTreeIdentifier::<H>::new(&seed_from::<H>(&filled), &[0xa5u8; 16]);
+    let before = [both.seed.as_slice(), &both.lms_tree_identifier[..]].concat();
+    both.zeroize();
+    out.push((
+        "SeedAndLmsTreeIdentifier",
+        before,
+        [both.seed.as_slice(), &both.lms_tree_identifier[..]].concat(),
+    ));
+
+    let mut blob = std::vec![0xa5u8; 8];
+    blob.extend_from_slice(&[0x13, 0x13, 0xff, 0xff, 0xff, 0xff, 0xff, 0xff]);
+    blob.extend_from_slice(&filled);
+    if let Ok(mut key) = ReferenceImplPrivateKey::<H>::from_binary_representation(&blob) {
+        let before = key.to_binary_representation().as_slice().to_vec();
+        key.zeroize();
+        out.push((
+            "ReferenceImplPrivateKey",
+            before,
+            key.to_binary_representation().as_slice().to_vec(),
+        ));
+    }
+
+    let parameter = LmotsAlgorithm::get_from_type::<H>(4);
+    let lms_parameter = crate::lms::parameters::LmsAlgorithm::get_from_type::<H>(5);
+    if let (Some(lmots), Some(lms)) = (parameter, lms_parameter) {
+        let mut lms_key = LmsPrivateKey::<H>::new(seed_from::<H>(&filled), [0xa5u8; 16], 7, lmots, lms);
+        let before = [lms_key.seed.as_slice(), &lms_key.lms_tree_identifier[..]].concat();
+        lms_key.zeroize();
+        let mut after = [lms_key.seed.as_slice(), &lms_key.lms_tree_identifier[..]].concat();
+        after.extend_from_slice(&lms_key.used_leafs_index.to_be_bytes());
+        out.push(("LmsPrivateKey", before, after));
+
+        let mut ots_key = lm_ots::keygen::generate_private_key(
+            [0xa5u8; 16],
+            [0, 0, 0, 3],
+            seed_from::<H>(&filled),
+            lmots,
+        );
+        let before: Vec<u8> = ots_key.key.as_slice().iter().flat_map(|x| x.as_slice().to_vec()).collect();
+        ots_key.zeroize();
+        let mut after: Vec<u8> = ots_key.key.as_slice().iter().flat_map(|x| x.as_slice().to_vec()).collect();
+        after.extend_from_slice(&ots_key.lms_tree_identifier);
+        after.extend_from_slice(&ots_key.lms_leaf_identifier);
+        out.push(("LmotsPrivateKey", before, after));
+    }
+    out
 }
